@@ -8,7 +8,7 @@ import random
 from hgsim import gen
 from hgsim.case import BuildError, fault_counts, fill_values, hist_digest, invocations, run_world, sim_stats
 from hgsim.driver import empty_result
-from hgsim.procs import AsyncProc, SyncProc, canon_events, span_tree
+from hgsim.procs import AsyncProc, SyncProc, canon_events, span_tree, with_identity
 from hgsim.util import canon, digest
 
 ID = "C13"
@@ -20,7 +20,7 @@ RULE = (
     "processor, an async processor raising before its internal yield and one raising after it, plus fail-on-every-event and fail-at-shutdown, "
     "placed before or after a healthy recorder. Non-trivial = the failing processor actually raised; distinct = digest of (program shape, "
     "runner, failure index, variant, placement)."
-    ' The injected node failure (if any) is of one of four kinds incl. an exception without arguments.'
+    ' The injected node failure (if any) is of one of five kinds incl. an exception without arguments. Processor objects are plain, unhashable (__eq__ without __hash__) or all-equal; the top-level map may be over an empty list.'
 )
 ASSUMPTIONS = [
     "healthy recorder's stream is compared exactly (canonical ids) for the sync runner and as a canonical span tree for the async runner, where a yielding failing processor may legitimately shift the interleaving of concurrent siblings",
@@ -46,7 +46,8 @@ def gen_case(rng: random.Random, tier: str) -> dict:
         "max_iterations": rng.choice([None, 5]) if g["seeds"] else None,
         "async": cfg,
         "top_map": rng.choice(ext) if (ext and not g["seeds"] and rng.random() < 0.25) else None,
-        "top_map_n": rng.randint(1, 3),
+        "top_map_n": rng.randint(0, 3),  # 0: a map over an empty list (no item runs, no events)
+        "proc_identity": rng.choice(["plain", "plain", "unhashable", "equal"]),  # processors are ordinary objects: may be unhashable or compare equal
         "tier": tier,
         "plan_seed": rng.randrange(1 << 30),
         "only": None,
@@ -87,6 +88,7 @@ def run_case(doc: dict) -> dict:
     sigs = []
     fired_any = False
     rng = random.Random(doc["plan_seed"])
+    ident = doc.get("proc_identity", "plain")
 
     def world(mode, procs_factory=None):
         w = run_world(g, values, mode=mode, cfg=doc["async"] if mode == "async" else None, faults=copy.deepcopy(faults), run_kwargs=dict(kw), op=op, processors_factory=procs_factory)
@@ -105,7 +107,7 @@ def run_case(doc: dict) -> dict:
             box: dict = {}
 
             def healthy(rt, _box=box):
-                _box["p"] = [AsyncProc(rt, "h_async"), SyncProc(rt, "h_sync")]
+                _box["p"] = [with_identity(AsyncProc(rt, "h_async"), ident), with_identity(SyncProc(rt, "h_sync"), ident)]
                 return _box["p"]
 
             wh = world(mode, healthy)
@@ -139,6 +141,7 @@ def run_case(doc: dict) -> dict:
                     else:
                         bad = AsyncProc(rt, "bad", fail_at=_k, yield_seed=doc["plan_seed"] if _v == "async_after" else None, fail_phase="after" if _v == "async_after" else "before")
                     good = AsyncProc(rt, "good") if (isinstance(_k, int) and _k % 2) else SyncProc(rt, "good")
+                    bad, good = with_identity(bad, ident), with_identity(good, ident)
                     _b["bad"], _b["good"] = bad, good
                     return [bad, good] if _pl == "first" else [good, bad]
 
@@ -164,7 +167,7 @@ def run_case(doc: dict) -> dict:
                     if len(good.events) != n or span_tree(good.events) != ref_tree:
                         viol.append((f"{mode}:healthy_processor_stream_incomplete_or_changed", {"point": point, "n_ref": n, "n_got": len(good.events)}))
                 exp_sd = 1 if n > 0 else 0
-                if good.shutdowns != exp_sd:
+                if good.shutdowns != exp_sd and not (n == 0 and good.shutdowns == 1):  # whether an empty map shuts processors down is not C13's business
                     viol.append((f"{mode}:healthy_processor_shutdown_count", {"point": point, "shutdowns": good.shutdowns, "expected": exp_sd}))
     except BuildError:
         res["discard"] = "build_error"
@@ -193,8 +196,8 @@ def shrink_candidates(doc: dict):
     if doc.get("only") is None:
         return
     yield from shrink_program(doc)
-    for key, val in (("top_map", None), ("max_iterations", None)):
-        if doc.get(key):
+    for key, val in (("top_map", None), ("max_iterations", None), ("proc_identity", "plain")):
+        if doc.get(key) and doc.get(key) != val:
             c = copy.deepcopy(doc)
             c[key] = val
             yield c
